@@ -94,7 +94,19 @@ def for_loop(e):
     elif r['k'] == 'Call' and callee_name(r) == 'std::ops::RangeInclusive::new':
         lo, hi = r['args']; inclusive = True
     else:
-        return ('other', pp(r)[:60], sc.get('loc'))
+        # `for x in (RANGE).map(|j| E)`: x stands for E(j) with j over RANGE
+        mp = mapped_range(r)
+        if mp is None: return ('other', pp(r)[:60], sc.get('loc'))
+        lo, hi, inclusive, closure = mp
+        for m in walk(e):
+            if m['k'] == 'Match' and m is not e:
+                for a in m['arms']:
+                    p = unwrap_pat(a['pat'])
+                    if p['k'] == 'Variant' and p['variant'] == 'Some' and p['subs']:
+                        q = unwrap_pat(p['subs'][0]['pat'])
+                        if q['k'] == 'Binding': return (q['var'], lo, hi, inclusive, a['body'], closure)
+                break
+        return None
     for m in walk(e):
         if m['k'] == 'Match' and m is not e:
             for a in m['arms']:
@@ -104,6 +116,55 @@ def for_loop(e):
                     if q['k'] == 'Binding': return (q['var'], lo, hi, inclusive, a['body'])
             break
     return None
+
+def mapped_range(r):
+    r = strip(r)
+    if not (r['k'] == 'Call' and callee_decl(r) == 'std::iter::Iterator::map' and len(r['args']) == 2): return None
+    src = strip(r['args'][0]); inclusive = False
+    if src['k'] == 'Adt' and canon(src['adt']) == 'std::ops::Range':
+        lo = [f['expr'] for f in src['fields'] if f['name'] == 'start'][0]; hi = [f['expr'] for f in src['fields'] if f['name'] == 'end'][0]
+    elif src['k'] == 'Call' and callee_name(src) == 'std::ops::RangeInclusive::new':
+        lo, hi = src['args']; inclusive = True
+    else:
+        return None
+    cl = [x for x in walk(r['args'][1]) if x['k'] == 'Closure']
+    if not cl: return None
+    return lo, hi, inclusive, canon(cl[0]['def'])
+
+def rendered_texts(e, skip_ids=()):
+    """the pieces of text written below e, in order: plain string pieces and format templates, with holes whose argument is a
+    string literal (e.g. a `relation: &str` parameter of an inlined helper, given as "<= 1") filled in"""
+    import engine_u
+    out = []; consumed = set()
+    for b in walk(e):
+        if id(b) in skip_ids: continue
+        if b['k'] == 'Block' and 'format_args' in str(b.get('exp')) and b['stmts']:
+            args = None
+            for st in b['stmts']:
+                if st['k'] == 'Let' and st.get('init') is not None and strip(st['init'])['k'] == 'Tuple' and args is None: args = strip(st['init'])['fields']
+            tm = [x for x in walk(b) if x['k'] == 'Literal' and x.get('lit') == 'ByteStr']
+            if args is not None and tm and id(tm[0]) not in consumed:
+                text = engine_u.decode_template(tm[0]['value'])
+                parts = text.split('{}')
+                if len(parts) == len(args) + 1:
+                    res = parts[0]
+                    for a, nxt in zip(args, parts[1:]):
+                        a0 = strip(a)
+                        if a0['k'] == 'Literal' and a0.get('lit') == 'Str':
+                            res += a0['value']; consumed.add(id(a0))
+                        else: res += '{}'
+                        res += nxt
+                    text = res
+                consumed.add(id(tm[0]))
+                out.append((tm[0], text))
+    for x in walk(e):
+        if id(x) in skip_ids or id(x) in consumed: continue
+        if x['k'] == 'Literal' and x.get('lit') == 'Str': out.append((x, x['value']))
+        if x['k'] == 'Literal' and x.get('lit') == 'ByteStr': out.append((x, engine_u.decode_template(x['value'])))
+    # restore source order
+    order = {id(x): i for i, x in enumerate(walk(e))}
+    out.sort(key=lambda p_: order.get(id(p_[0]), 0))
+    return out
 
 def literal_texts(e):
     out = []
@@ -128,6 +189,7 @@ def top_level_loops(body):
     return out
 
 PATTERN = [None]
+CRATE = [None]
 
 def extract_nests(t, nvar):
     nests = []
@@ -143,18 +205,34 @@ def extract_nests(t, nvar):
                 inner = (fl2, x); break
             if fl2 is not None and fl2[0] == 'other': raise NUndec('inner loop over %s is not a numeric range' % fl2[1], fl2[2])
         if inner is None: raise NUndec('constraint loop without an inner index loop', e0.get('loc'))
-        (jvar, jlo, jhi, jinc, jbody), jnode = inner
+        fl2, jnode = inner
+        jvar, jlo, jhi, jinc, jbody = fl2[:5]
         names2 = dict(names); names2[jvar] = 'j'
+        mapped = None
+        if len(fl2) == 6:
+            # the loop variable is E(j): read E from the closure, with the closure's parameter as j
+            ct = CRATE[0].ithir.get(fl2[5]) if CRATE[0] is not None else None
+            if ct is None or len(ct['params']) != 2 or unwrap_pat(ct['params'][1]['pat'])['k'] != 'Binding': raise NUndec('cannot read the index closure of the inner loop', jnode.get('loc'))
+            names2 = dict(names); names2[unwrap_pat(ct['params'][1]['pat'])['var']] = 'j'
+            cb = ct['body']
+            while cb['k'] in ('Use', 'NeverToAny') or (cb['k'] == 'Block' and not cb['stmts'] and cb['expr'] is not None): cb = cb['source'] if cb['k'] != 'Block' else cb['expr']
+            mapped = (jvar, cb)
         # texts outside the inner loop
         inner_ids = set(id(x) for x in walk(jnode))
         import engine_u
-        lits = [(x, x['value'] if x.get('lit') == 'Str' else engine_u.decode_template(x['value'])) for x in walk(ibody)
-                if x['k'] == 'Literal' and x.get('lit') in ('Str', 'ByteStr') and id(x) not in inner_ids]
+        lits = rendered_texts(ibody, inner_ids)
+        if mapped is not None:
+            # literals inside the index closure expression are not text
+            pass
         outer_text = ''.join(s for _, s in lits)
         # the single formatted index inside the inner loop
         tuples = [x for x in walk(jbody) if x['k'] == 'Tuple' and len(x['fields']) == 1 and strip(x['fields'][0])['k'] in ('Binary', 'VarRef', 'Literal')]
         if len(tuples) != 1: raise NUndec('inner loop does not format exactly one index', jnode.get('loc'))
-        E = poly_of(tuples[0]['fields'][0], names2)
+        if mapped is not None:
+            if root_var(tuples[0]['fields'][0]) != mapped[0] or strip(tuples[0]['fields'][0])['k'] not in ('VarRef', 'UpvarRef'): raise NUndec('inner loop over a mapped range must format the mapped value itself', jnode.get('loc'))
+            E = poly_of(mapped[1], names2)
+        else:
+            E = poly_of(tuples[0]['fields'][0], names2)
         tmpl = [bytes(x['value']) for x in walk(jbody) if x['k'] == 'Literal' and x.get('lit') == 'ByteStr']
         import engine_u, engine_l
         item_ok = False
@@ -246,6 +324,7 @@ def rule_queens(F, R):
         R.violation('n_queens_gen::main / N / board size', 'UNDECIDABLE', 'cannot find the variable holding the number of queens'); return
     from engine_t import tokenizer_pattern
     PATTERN[0] = tokenizer_pattern(F.lib())[0]
+    CRATE[0] = F.crate("n_queens_gen")
     if PATTERN[0] is None:
         R.violation('n_queens_gen::main / N / tokenizer', 'UNDECIDABLE', 'tokenizer pattern not found'); return
     try:
